@@ -65,14 +65,48 @@ def _snap(x):
     return ("other", repr(x))
 
 
-def mk_rl(dt, seq):
-    return RunLengthArray.from_array(dec_seq(seq, dt))
+def mk_rl(dt, seq, via="from_array"):
+    """Realise the dense sequence as a RunLengthArray.  `via` chooses HOW: directly by encoding, or as the result of library
+    operations whose encodings are legitimately NOT run-minimal (concatenation of pieces, a scalar ufunc): an encoding with
+    adjacent equal runs must behave exactly like the minimal one."""
+    a = dec_seq(seq, dt)
+    n = len(a)
+    if via == "from_array" or n < 2:
+        return RunLengthArray.from_array(a)
+    if via == "concat2":
+        k = n // 2
+        return np.concatenate([RunLengthArray.from_array(a[:k]), RunLengthArray.from_array(a[k:])])
+    if via == "concat3":
+        k1, k2 = max(1, n // 3), max(2, (2 * n) // 3)
+        if k2 >= n:
+            return np.concatenate([RunLengthArray.from_array(a[:1]), RunLengthArray.from_array(a[1:])])
+        return np.concatenate([RunLengthArray.from_array(a[:k1]), RunLengthArray.from_array(a[k1:k2]), RunLengthArray.from_array(a[k2:])])
+    if via == "pieces":                      # one piece per element: every run has length 1
+        return np.concatenate([RunLengthArray.from_array(a[i:i + 1]) for i in range(n)])
+    if via == "ufunc":
+        if a.dtype.kind in "iu" and a.dtype.itemsize == 8 and np.all(np.abs(a.astype(np.int64)) < 1000):
+            b = a * 2 + (np.arange(n) % 2).astype(a.dtype)          # low bit alternates: every element is its own run
+            return RunLengthArray.from_array(b) // 2
+        if a.dtype == bool:
+            return np.logical_not(np.logical_not(RunLengthArray.from_array(a)))
+        return np.concatenate([RunLengthArray.from_array(a[:1]), RunLengthArray.from_array(a[1:])])
+    if via == "astype":
+        if a.dtype.kind in "iu":
+            return RunLengthArray.from_array(a.astype(np.float64) + 0.25 * (np.arange(n) % 2)).astype(a.dtype) if np.all(a >= 0) else RunLengthArray.from_array(a)
+        return RunLengthArray.from_array(a)
+    raise ValueError(via)
+
+
+RL_VIAS = ["from_array", "concat2", "concat3", "pieces", "ufunc", "astype"]
+
+
+_VIA = ["from_array"]
 
 
 def py_operand(o):
     k = o[0]
     if k == "rl":
-        return mk_rl(o[1], o[2])
+        return mk_rl(o[1], o[2], _VIA[0])
     if k == "np":
         return DT2NP[o[1]](dec_val(o[2], o[1]))
     if k == "py":
@@ -136,7 +170,7 @@ def op_roundtrip(c, o):
 
 def op_getitem(c, o):
     dt, seq, idx = c[1], c[2], c[3]
-    r = mk_rl(dt, seq)
+    r = mk_rl(dt, seq, o.get("via", "from_array"))
     before = snap(r)
     k = idx[0]
     if k == "int":
@@ -163,8 +197,10 @@ def op_getitem(c, o):
 
 def op_ufunc(c, o):
     f, x, y = c[1], c[2], c[3]
+    _VIA[0] = o.get("via", "from_array")
     a = py_operand(x)
     args = [a] if y[0] == "none" else [a, py_operand(y)]
+    _VIA[0] = "from_array"
     before = [snap(v) for v in args]
     how = o.get("how", "ufunc")
     import operator as _op
@@ -180,7 +216,7 @@ def op_ufunc(c, o):
 
 def op_reduce(c, o):
     name, dt, seq = c[1], c[2], c[3]
-    r = mk_rl(dt, seq)
+    r = mk_rl(dt, seq, o.get("via", "from_array"))
     before = snap(r)
     how = o.get("how", "np")
     if name == "max":
@@ -204,7 +240,7 @@ def op_hist(c, o):
 
 
 def op_concat(c, o):
-    rs = [mk_rl(a[0], a[1]) for a in c[1]]
+    rs = [mk_rl(a[0], a[1], o.get("via", "from_array")) for a in c[1]]
     before = [snap(r) for r in rs]
     res = np.concatenate(rs)
     out = proj(res)
